@@ -142,8 +142,7 @@ class FlagEngine:
         for st in cfg.body:
             if isinstance(st, ast.While):
                 for n in ast.walk(st):
-                    if isinstance(n, ast.Subscript) and isinstance(n.value, ast.Name) \
-                            and n.value.id in ('opcodes', 'nopcodes'):
+                    if isinstance(n, ast.Name) and isinstance(n.ctx, ast.Load) and n.id in ('opcodes', 'nopcodes'):
                         return st
         raise AnalysisError('run_tape: fetch/dispatch loop not recognised')
 
